@@ -134,7 +134,14 @@ def gen_cases(ctx, sc, maxvals, depth, readvals, breadth, label, setdups=False, 
     tsc, _ = schemalib.to_tla(sc)
     r = ctx.tlc("Wire", module, "gen.cfg", files={"gen.cfg": cfg, "schema.json": json.dumps(tsc)},
                 timeout=3000, label=label)
-    return ctx.tlc_cases(r)
+    cases = ctx.tlc_cases(r)
+    # every writable value is also a read case on its own reference encoding (the reference reader's prediction
+    # comes with the case)
+    extra = []
+    for c in cases:
+        if c["k"] == "w" and c.get("writable") and c.get("enc"):
+            extra.append({"k": "r", "s": c["s"], "pert": {"kind": "own-encoding"}, "toks": c["enc"], "exp": c["exp"]})
+    return cases + extra
 
 
 def validate_write_traces(ctx, sc, rows, label):
